@@ -149,6 +149,19 @@ def run(ctx):
             else:
                 count("%s_programs_compiled" % c["kind"])
                 to_run.append(c)
+        elif c["kind"] == "speculative":  # not offered by the API, rejected by the borrow checker, or runs clean
+            if e:
+                codes = {x[0] for x in e}
+                if codes & {"E0597", "E0505", "E0515", "E0716", "E0521", "E0499", "E0502", "E0506", "E0373"}:
+                    count("speculative_conversions_rejected_by_the_borrow_checker")
+                elif codes & {"E0599", "E0277", "E0308", "E0282", "E0283", "E0614", "E0609", "E0507"}:
+                    count("speculative_conversions_not_offered_by_the_api")
+                else:
+                    shard["inconclusive"] += 1
+                    shard["inconclusive_notes"].append("%s fails to compile for an unrelated reason: %s" % (n, e[0]))
+            else:
+                count("speculative_conversions_that_compile(run_as_probes)")
+                to_run.append(c)
         else:  # generated: rejected or runs clean
             if e:
                 codes = {x[0] for x in e}
@@ -190,7 +203,7 @@ def run(ctx):
         count("probe_runs_" + how)
         if rc == 0 and "C14-PROBE-OK" in out:
             count("probe_runs_clean")
-            if c["kind"] == "generated":
+            if c["kind"] in ("generated", "speculative"):
                 shard["nontrivial"].append(int(hashlib.sha1(("run" + n).encode()).hexdigest()[:15], 16))
             return
         if rc == 3:
@@ -206,7 +219,7 @@ def run(ctx):
         for c, rc, out, err in ex.map(probe, to_run):
             judge(c, rc, out, err, "native")
     if tier == "thorough":
-        gen = [c for c in to_run if c["kind"] == "generated" or c["kind"] == "reject"]
+        gen = [c for c in to_run if c["kind"] in ("generated", "speculative", "reject")]
         wrapper = ["valgrind", "--tool=memcheck", "--undef-value-errors=no", "--error-exitcode=0", "-q"]
         with ThreadPoolExecutor(max_workers=os.cpu_count() or 4) as ex:
             for c, rc, out, err in ex.map(lambda c: probe(c, wrapper), gen):
